@@ -1046,9 +1046,17 @@ impl<'a> CompactionIterator<'a> {
 
 		// Check if latest version is DELETE at bottom level
 		// If so, we can completely remove this key from the database
+		//
+		// ... unless an active snapshot is older than that DELETE: it still reads
+		// the versions below it, and as long as those are kept the tombstone
+		// must stay too (or newer readers would see the key come back).
 		let latest_is_delete_at_bottom = self.is_bottom_level
 			&& !self.accumulated_versions.is_empty()
-			&& self.accumulated_versions[0].0.is_hard_delete_marker();
+			&& self.accumulated_versions[0].0.is_hard_delete_marker()
+			&& self
+				.snapshots
+				.first()
+				.is_none_or(|&oldest| oldest >= self.accumulated_versions[0].0.seq_num());
 
 		// Check if any version is REPLACE
 		// REPLACE semantics: delete all older versions regardless of retention
@@ -1125,11 +1133,12 @@ impl<'a> CompactionIterator<'a> {
 			} else if is_latest && !is_hard_delete && !is_replace {
 				// Latest PUT: never stale (will be output)
 				false
-			} else if is_latest && is_hard_delete && self.is_bottom_level {
+			} else if is_latest && is_hard_delete && latest_is_delete_at_bottom {
 				// Latest DELETE at bottom: stale (won't be output)
 				true
-			} else if is_latest && is_hard_delete && !self.is_bottom_level {
-				// Latest DELETE at non-bottom: not stale (tombstone preserved)
+			} else if is_latest && is_hard_delete && !latest_is_delete_at_bottom {
+				// Latest DELETE at non-bottom (or still shadowing versions an
+				// older snapshot reads): not stale (tombstone preserved)
 				false
 			} else if is_latest && is_replace {
 				// Latest REPLACE: not stale (will be output)
